@@ -731,6 +731,47 @@ func (r *writerRun) exec(fault *WFault, outp *[]Ev) (out []Ev) {
 			ev["type"], ev["n"], ev["m"], ev["dl"] = op.Type, op.N, msgID, dlOr(op.DL)
 			err = c.WriteControl(op.Type, data, dl)
 			ev["tx"] = r.takeTx()
+		case "WJC":
+			// ONE WriteJSON call during which a close frame is sent by another path: the value's MarshalJSON
+			// (which runs after WriteJSON has opened its message writer) calls WriteControl. Reported as the
+			// three steps it consists of: NW (the writer opened by WriteJSON), WC, CL (the end of WriteJSON:
+			// the message must not be reported as sent).
+			called := false
+			prevMsg, wasOpen := wc.curMsg, wc.open
+			nwID := -1
+			hook := func() {
+				called = true
+				tx := r.takeTx()
+				msgID++
+				nwID = msgID
+				wc.curMsg, wc.sent, wc.nextMsg = msgID, 0, -1
+				r.pays[msgID] = []byte{}
+				wc.open = true
+				out = append(out, Ev{"e": "NW", "c": op.C, "type": 1, "tx": tx, "prev": prevMsg, "wasopen": wasOpen, "m": msgID, "err": r.classifyW(nil)})
+				msgID++
+				data := wire.TextPay(p.Seed, msgID, op.N)
+				if op.Type == 8 && op.N >= 2 {
+					data = wire.CloseBody(1000, wire.TextPay(p.Seed, msgID, op.N-2))
+				}
+				r.pays[msgID] = data
+				wc.ctlMsg = msgID
+				var dl time.Time
+				if op.DL != "zero" && op.DL != "" {
+					dl = r.dls[op.DL]
+				}
+				e2 := c.WriteControl(op.Type, data, dl)
+				xerrOf()
+				out = append(out, Ev{"e": "WC", "c": op.C, "type": op.Type, "n": op.N, "m": msgID, "dl": dlOr(op.DL), "tx": r.takeTx(), "err": r.classifyW(e2)})
+			}
+			err = c.WriteJSON(&hookValue{f: hook})
+			wc.w = nil
+			wc.open = false
+			if !called {
+				// NextWriter failed inside WriteJSON
+				ev["e"], ev["type"], ev["tx"], ev["prev"], ev["wasopen"], ev["m"] = "NW", 1, r.takeTx(), prevMsg, wasOpen, -1
+			} else {
+				ev["e"], ev["m"], ev["tx"] = "CL", nwID, r.takeTx()
+			}
 		case "WP":
 			wc.pmID, wc.pmSent = op.PM, 0
 			ev["pm"] = op.PM
@@ -837,4 +878,12 @@ func RunShare(p *WProg) (evs []Ev) {
 		evs = append(evs, Ev{"e": "TOUCHED"})
 	}
 	return evs
+}
+
+// hookValue runs f when encoding/json marshals it.
+type hookValue struct{ f func() }
+
+func (h *hookValue) MarshalJSON() ([]byte, error) {
+	h.f()
+	return []byte(`"x"`), nil
 }
